@@ -29,7 +29,10 @@ SELECT = {
     "C08": (CONVERSIONS, {"value", "mask", "raises", "raises_only", "invariant", "callsite"}),
     "C09": (ALL_DATA + ["PrintVars"], {"frame", "invariant"}),
     "C01cmd": (ALL_DATA + ["PrintVars"], {"touches"}),
-    "C02cmd": (ALL_DATA, {"kind", "dtype", "fuzzy_range"}),
+    # C02: every execute equals its spec function of the input *views* (kind, shape, dtype, mask, value), keeps the fuzzy range,
+    # leaves its inputs alone (frame) and reads every reference (touches)
+    "C02cmd": (ALL_DATA, {"kind", "dtype", "shape", "mask", "value", "fuzzy_range", "frame", "touches", "invariant", "callsite"}),
+    "C02": (ALL_DATA, {"kind", "dtype", "shape", "mask", "value", "fuzzy_range", "frame", "touches", "invariant", "callsite"}),
 }
 
 
@@ -52,6 +55,7 @@ HELPERS_FOR = {
     "C07": ["validate_array_shapes"],
     "C08": ["insure_fuzzy"],
     "C09": ["insure_fuzzy", "make_masked", "validate_array_shapes"],
+    "C02": ["insure_fuzzy", "make_masked", "validate_array_shapes"],
 }
 
 
